@@ -39,7 +39,7 @@ pub fn set_mode(m: u8) -> u8 {
     // harness code is not single-stepped: the trap handler turns the trap flag off when it
     // sees harness mode, and it is turned on again here when code under test resumes
     #[cfg(target_arch = "x86_64")]
-    if m == MODE_RUN && old != MODE_RUN && FINE_ON.try_with(|c| c.get()).unwrap_or(false) {
+    if m != MODE_PLAIN && old == MODE_PLAIN && FINE_ON.try_with(|c| c.get()).unwrap_or(false) {
         // SAFETY: sets the trap flag of this thread
         unsafe {
             core::arch::asm!("pushfq", "or qword ptr [rsp], 0x100", "popfq");
